@@ -24,6 +24,10 @@ type ProvCase struct {
 	MaxConns []int                      `json:"max_conns"`
 	Peers    []int                      `json:"peers"`
 	States   [][]l4proxy.VerifPeerState `json:"states"`
+	// Twin: a second handler is provisioned from the same configuration while the first one exists (a configuration
+	// reload, or two routes that proxy to the same addresses). The counters are set through the first handler and the
+	// second handler's policy is asked: both see the same upstreams' state.
+	Twin bool `json:"twin,omitempty"`
 }
 
 func (pc *ProvCase) config(base int) string {
@@ -111,6 +115,16 @@ func runProvisionedCase(c *fw.Ctx, pc *ProvCase) {
 			l4proxy.VerifSetPeerState(u, j, st)
 		}
 	}
+	if pc.Twin {
+		ctx2, cancel2 := hmods.NewContext()
+		defer cancel2()
+		mod2, err := ctx2.LoadModuleByID("layer4.handlers.proxy", json.RawMessage(pc.config(provSeq+c.Shard*4000)))
+		if err != nil {
+			c.Violation("C10 provisioned config rejected", err.Error(), pc)
+			return
+		}
+		h = mod2.(*l4proxy.Handler)
+	}
 	anyAvail, mixed := false, false
 	for i := range pc.Peers {
 		if pc.available(i) {
@@ -141,7 +155,7 @@ func runProvisionedCase(c *fw.Ctx, pc *ProvCase) {
 		}
 	}
 	c.Obs("provisioned_cases", 1)
-	c.Case(fw.Hash("prov", pc.Policy, pc.Passive, pc.MaxConns, pc.Peers, fmt.Sprint(pc.States)), anyAvail && mixed, func() any { return pc })
+	c.Case(fw.Hash("prov", pc.Twin, pc.Policy, pc.Passive, pc.MaxConns, pc.Peers, fmt.Sprint(pc.States)), anyAvail && mixed, func() any { return pc })
 }
 
 func guardSelect(f func()) (p string) {
@@ -175,6 +189,7 @@ func runProvisioned(c *fw.Ctx) {
 			}
 			pc.States = append(pc.States, sts)
 		}
+		pc.Twin = r.Intn(4) == 0
 		if !c.Mine(i) {
 			continue
 		}
